@@ -1,8 +1,13 @@
 /-
   Exact model of the control flow of `core/src/defaults/parser.rs` (which line-building primitive is
   called when, and how token kinds are consolidated), on top of the primitive machine of `Model/Parser.lean`.
+
+  Part 3: the mutually recursive functions of `impl InternalDelphiLogicalLineParser` (one mutual block, structural
+  recursion on a fuel argument), `parse`, and `parse_file`.
+  Parts 1 and 2 are `Model/ParserBase.lean` (state, accessors, contexts, predicates) and `Model/ParserLeaf.lean`
+  (functions that never reach `parse_structures` / `parse_statement`).
 -/
-import PasfmtModel.Model.Parser
+import PasfmtModel.Model.ParserLeaf
 
 namespace Pasfmt
 
@@ -13,9 +18,701 @@ structure ParseFullOut where
   lines : List PLine
   /-- per conditional-directive pass: its token indices and the trace of primitives the control flow issued -/
   traces : List (List Nat × List POp)
+  /-- per conditional-directive pass: the lines the line builder holds at the end of the pass -/
+  passLines : List (List PLine)
 
+namespace PFull
+
+/-- the `impl Fn(&mut LLP)` closures handed to `do_with_context` (defunctionalised) -/
+inductive Action where
+  /-- `|parser| parser.parse_statement_list_with_type(context_type)` (in `parse_statement_block_with_kind`) -/
+  | parseStatementListWithType (ct : ContextType)
+  /-- `|parser| parser.parse_structures()` (in `parse_statement_list_with_type_and_predicate`) -/
+  | parseStructures
+  /-- `|parser| { parser.parse_structures(); parser.finish_logical_line(); }` (in `parse_block`) -/
+  | parseStructuresFinish
+  /-- `|parser| parser.next_token()` (in `parse_anonymous_routine`) -/
+  | nextToken
+  /-- `|parser| parser.parse_routine()` (in `parse_anonymous_routine`) -/
+  | parseRoutine
+  /-- `|parser| parser.parse_asm_instructions()` (in `parse_asm_block`) -/
+  | parseAsmInstructions
+  deriving Repr
+
+/-- short-circuit `&&` whose right operand reads the state -/
+@[inline] def andM (b : Bool) (m : PM Bool) : PM Bool := if b then m else pure false
+
+def mkCtx (ct : ContextType) (p : ContextEndingPredicate) (l : ParserContextLevel) : ParserContext :=
+  { contextType := ct, contextEndingPredicate := p, level := l }
+
+/-- the `any(|ctx| matches!(ctx.context_type, ..))` scans over `context.contexts` -/
+def PS.anyContextType (s : PS) (cts : List ContextType) : Bool :=
+  s.contexts.any (fun c => cts.contains c.1.contextType)
+
+mutual
+
+/-- `parse_structures` -/
+def parseStructures : Nat → PM Unit
+  | 0 => panic_
+  | fuel + 1 => do
+    let s ← get
+    let some tokenType := s.getCurrentTokenType | return
+    if let some endingContext ← endingIdx then
+      updateStatuses endingContext
+      return
+    let t := some tokenType
+    let lastCtx := s.getLastContextType
+    if ← andM (tokenType == .rCompilerDirective)
+        (do if ← isDirectiveBeforeNextToken then isDirectiveAfterPrevToken else pure false) then
+      skipToken
+    else if isCommentKind tokenType || tokenType == .rCompilerDirective then
+      nextToken
+      if tokenType == .rCompilerDirective then setLogicalLineType .lCompilerDirective
+      if (← get).isInStatement then finishLogicalLine else makeUnfinishedLine
+    else if isKeyword t [.kLibrary, .kUnit, .kProgram, .kPackage] || isIdentOrKeyword t [.kPackage] then
+      if (s.getTokenType (-1)).isNone then
+        consolidateCurrentKeyword
+        let pushProgramHeadContext (ct : ContextType) : PM Unit :=
+          pushCtx (mkCtx ct (.opaque .neverEnding) (.level 0))
+        match getKeywordKind tokenType with
+        | some .kLibrary => pushProgramHeadContext .library
+        | some .kUnit => pushProgramHeadContext .unit
+        | some .kProgram => pushProgramHeadContext .program
+        | some .kPackage => pushProgramHeadContext .package
+        | _ => pure ()
+      nextToken
+      opUntil afterSemicolon (.keywordConsolidator false) fuel
+      finishLogicalLine
+    else if ← andM (isOp t [.oLBrack]) isAtStartOfLine then
+      skipPair fuel
+      setLogicalLineType .lAttribute
+      makeUnfinishedLine
+    else if isKeyword t [.kInterface, .kImplementation, .kInitialization, .kFinalization] then
+      finishLogicalLine
+      nextToken
+      finishLogicalLine
+      if tokenType == .rKeyword .kInterface then
+        parseBlock fuel (mkCtx .interface (.opaque .sectionHeadings) (.level 0))
+      else if tokenType == .rKeyword .kImplementation then
+        parseBlock fuel (mkCtx .implementation (.opaque .sectionHeadings) (.level 0))
+      else if tokenType == .rKeyword .kInitialization then
+        parseStatementBlockWithKind fuel
+          (mkCtx (.statementBlock .bInitialization) (.opaque .sectionHeadings) (.level 1)) .sNormal
+      else
+        parseStatementBlockWithKind fuel
+          (mkCtx (.statementBlock .bFinalization) (.opaque .sectionHeadings) (.level 1)) .sNormal
+    else if isKeyword t [.kBegin] then
+      nextToken
+      parseStatementListBlock fuel (mkCtx (.statementBlock .bBegin) (.opaque .kwEnd) (.level 1))
+      if isKeyword (← cur) [.kEnd] then nextToken
+      if isOp (← cur) [.oDot] then nextToken else takeUntil noMoreSeparators fuel
+      finishLogicalLine
+    else if isKeyword t [.kEnd] then
+      nextToken
+      if isOp (← cur) [.oDot] then nextToken
+    else if isKeyword t [.kRepeat] then
+      nextToken
+      parseStatementListBlock fuel (mkCtx (.statementBlock .bRepeat) (.opaque .kwUntil) (.level 1))
+      nextToken
+      pushCtx (mkCtx .blockClause (.transparent .neverEnding) (.level 0))
+      parseStatement fuel
+      popCtx
+      takeUntil noMoreSeparators fuel
+      finishLogicalLine
+    else if isKeyword t [.kTry] then
+      nextToken
+      parseStatementListBlock fuel (mkCtx (.statementBlock .bTry) (.opaque .exceptFinally) (.level 1))
+      let (contextType, statementKind) :=
+        if isKeyword (← cur) [.kExcept] then (ContextType.statementBlock .bExcept, StatementKind.sExcept)
+        else (ContextType.statementBlock .bFinally, StatementKind.sNormal)
+      nextToken
+      parseStatementBlockWithKind fuel (mkCtx contextType (.opaque .elseEnd) (.level 1)) statementKind
+      if isKeyword (← cur) [.kElse] then
+        nextToken
+        parseStatementListBlock fuel (mkCtx (.statementBlock .bElse) (.opaque .kwEnd) (.level 1))
+      nextToken
+      takeUntil noMoreSeparators fuel
+      finishLogicalLine
+    else if (isKeyword t [.kOn] || isIdentOrKeyword t [.kOn]) && lastCtx == some (.statement .sExcept) then
+      consolidateCurrentKeyword
+      parseDoStatement fuel .kOn
+    else if isKeyword t [.kFor, .kWhile, .kWith] then
+      match tokenType with
+      | .rKeyword keywordKind => parseDoStatement fuel keywordKind
+      | _ => pure ()
+    else if isKeyword t [.kIf] then
+      parseIfThen fuel
+    else if isKeyword t [.kElse] then
+      nextToken
+    else if isKeyword t [.kCase] then
+      if s.anyContextType [.typeDeclaration] then parseVariantRecord fuel else parseCaseStatement fuel
+    else if isKeyword t [.kUses] then
+      parseImportClause fuel
+    else if (isKeyword t [.kContains, .kRequires] || isIdentOrKeyword t [.kContains, .kRequires])
+        && lastCtx == some .package then
+      parseImportClause fuel
+    else if isKeyword t [.kExports] then
+      finishLogicalLine
+      nextToken
+      finishLogicalLine
+      pushCtx (mkCtx .importExport (.opaque .neverEnding) (.level 1))
+      parseCommentLines fuel
+      parseExpression fuel
+      opUntil afterSemicolon .parseExports fuel
+      setLogicalLineType .lExportClause
+      finishLogicalLine
+      popCtx
+    else if isKeyword t [.kClass] then
+      nextToken
+      if (← curKw) == some .kOperator then
+        consolidateCurrentKeyword
+        consolidateClassOpIn
+    else if isKeyword t [.kStrict] || isIdentOrKeyword t [.kStrict] then
+      nextToken
+    else if (isKeyword t [.kPrivate, .kProtected, .kPublic, .kPublished, .kAutomated]
+          || isIdentOrKeyword t [.kPrivate, .kProtected, .kPublic, .kPublished, .kAutomated])
+        && s.isInTypeDecl then
+      if isIdentOrKeyword (s.getTokenType (-1)) [.kStrict] then consolidatePrevKeyword
+      consolidateCurrentKeyword
+      nextToken
+      finishLogicalLine
+      parseBlock fuel (mkCtx .visibilityBlock (.opaque .visibilityBlockEnding) (.level 1))
+    else if (match tokenType with | .rKeyword k => k.isDeclSection | _ => false) then
+      if (match lastCtx with | some (.statement _) | some (.statementBlock _) => true | _ => false) then
+        -- Inline declaration (`continue`)
+        setLogicalLineType .lInlineDeclaration
+        setCurrentDeclKind .dkInline
+        nextToken
+      else
+        setCurrentDeclKind .dkSection
+        nextToken
+        let reduceLevel := (← lastCtxType) == some .subRoutine
+        if reduceLevel then pushCtx (mkCtx .subRoutine (.opaque .neverEnding) (.level (-1)))
+        finishLogicalLine
+        let contextType := if tokenType == .rKeyword .kType then ContextType.typeBlock else .declarationBlock
+        parseBlock fuel (mkCtx contextType (.opaque .declarationSection) (.level 1))
+        if reduceLevel then popCtx
+    else if isKeyword t [.kProperty] then
+      parsePropertyDeclaration fuel
+    else if isKeyword t [.kFunction, .kProcedure, .kConstructor, .kDestructor, .kOperator] then
+      parseRoutine fuel
+    else if isKeyword t [.kAsm] then
+      parseAsmBlock fuel
+    else if isKeyword t [.kRaise] then
+      nextToken
+      parseExpression fuel
+      if (← curKw) == some .kAt then
+        consolidateCurrentKeyword
+        parseExpression fuel
+    else
+      parseStatement fuel
+    parseStructures fuel
+
+/-- `parse_if_then` -/
+def parseIfThen : Nat → PM Unit
+  | 0 => panic_
+  | fuel + 1 => do
+    nextToken
+    parseLineSection fuel (mkCtx .utility (.opaque .kwThen) (.level 0))
+    if (← curKw) != some .kThen then return
+    let parent ← getLineParentOfCurrentToken
+    nextToken
+    let mut level := ParserContextLevel.parent parent 1
+    parseBlock fuel (mkCtx (.statement .sNormal) (.transparent .elseKeyword) level)
+    if (← get).lastIsEndedIsFalse then
+      if (← curKw) == some .kElse then
+        let parent ← getLineParentOfCurrentToken
+        nextToken
+        level := ParserContextLevel.parent parent 1
+        parseBlock fuel (mkCtx (.statement .sNormal) (.transparent .neverEnding) level)
+    takeSeparatorsOnLastLine fuel level
+    finishLogicalLine
+
+/-- `parse_do_statement` -/
+def parseDoStatement : Nat → KeywordKind → PM Unit
+  | 0, _ => panic_
+  | fuel + 1, keywordKind => do
+    nextToken
+    setLogicalLineType (if keywordKind == .kFor then .lForLoop else .lUnknown)
+    parseLineSection fuel (mkCtx .utility (.opaque .kwDo) (.level 0))
+    if (← curKw) != some .kDo then return
+    let parent ← getLineParentOfCurrentToken
+    nextToken
+    let level := ParserContextLevel.parent parent 1
+    parseBlock fuel (mkCtx (.statement .sNormal) (.transparent .neverEnding) level)
+    takeSeparatorsOnLastLine fuel level
+    finishLogicalLine
+
+/-- `parse_case_statement` -/
+def parseCaseStatement : Nat → PM Unit
+  | 0 => panic_
+  | fuel + 1 => do
+    nextToken
+    setLogicalLineType .lCaseHeader
+    parseLineSection fuel (mkCtx .utility (.opaque .kwOf) (.level 0))
+    if isKeyword (← cur) [.kOf] then nextToken else return
+    finishLogicalLine
+    parseStatementBlockWithKind fuel (mkCtx (.statement .sCase) (.opaque .caseEndElse) (.level 1)) .sCase
+    if isKeyword (← cur) [.kElse] then
+      nextToken
+      finishLogicalLine
+      parseStatementListBlock fuel (mkCtx (.statementBlock .bElse) (.opaque .kwEnd) (.level 1))
+    if isKeyword (← cur) [.kEnd] then nextToken
+
+/-- `parse_variant_record` -/
+def parseVariantRecord : Nat → PM Unit
+  | 0 => panic_
+  | fuel + 1 => do
+    let s ← get
+    let levelDelta : Int :=
+      match s.getLastContext with
+      | some { level := .parent _ _, .. } => 0
+      | _ => -1
+    pushCtx (mkCtx .variantRecord (.transparent .neverEnding) (.level levelDelta))
+    nextToken
+    setLogicalLineType .lCaseHeader
+    parseLineSection fuel (mkCtx .utility (.opaque .kwOf) (.level 0))
+    if isKeyword (← cur) [.kOf] then nextToken else return
+    finishLogicalLine
+    parseStatementBlockWithKind fuel (mkCtx .variantDeclarationBlock (.transparent .rparen) (.level 1)) .sVariantRecord
+    popCtx
+
+/-- `parse_case_arm` -/
+def parseCaseArm : Nat → LineParent → PM Unit
+  | 0, _ => panic_
+  | fuel + 1, parent => do
+    let level := ParserContextLevel.parent parent 1
+    parseBlock fuel (mkCtx (.statement .sNormal) (.transparent .neverEnding) level)
+    takeSeparatorsOnLastLine fuel level
+    finishLogicalLine
+
+/-- `parse_comment_lines` -/
+def parseCommentLines : Nat → PM Unit
+  | 0 => panic_
+  | fuel + 1 => parseBlock fuel (mkCtx .utility (.opaque .notCommentOrDirective) (.level 0))
+
+/-- `parse_import_clause` -/
+def parseImportClause : Nat → PM Unit
+  | 0 => panic_
+  | fuel + 1 => do
+    finishLogicalLine
+    consolidateCurrentKeyword
+    nextToken
+    finishLogicalLine
+    pushCtx (mkCtx .importExport (.opaque .neverEnding) (.level 1))
+    parseCommentLines fuel
+    opUntil afterSemicolon .importClause fuel
+    setLogicalLineType .lImportClause
+    finishLogicalLine
+    popCtx
+
+/-- `parse_statement` -/
+def parseStatement : Nat → PM Unit
+  | 0 => panic_
+  | fuel + 1 => do
+    let s ← get
+    let some tokenType := s.getCurrentTokenType | return
+    if let some context := s.getLastContext then
+      if let some endingContext ← endingIdx then
+        updateStatuses endingContext
+        return
+      if ← isAtStartOfLine then
+        let lineType : Option LogicalLineType :=
+          match context.contextType with
+          | .statement .sCase => some .lCaseArm
+          | .labelBlock | .typeBlock | .declarationBlock | .visibilityBlock => some .lDeclaration
+          | .statement .sVariantRecord => some .lVariantRecordCaseArm
+          | _ => none
+        if let some lineType := lineType then setLogicalLineType lineType
+    let t := some tokenType
+    let lastCtx := s.getLastContextType
+    if isKeyword t [.kClass, .kInterface, .kDispInterface, .kRecord, .kObject] then
+      nextToken
+      if (match ← curKw with | some .kAbstract | some .kSealed => true | _ => false) then
+        if (← nextTT) != some (.rOp .oColon) then consolidateCurrentKeyword
+        nextToken
+      let nt ← nextTT
+      if (← curKw) == some .kHelper && (isKeyword nt [.kFor] || isOp nt [.oLParen]) then
+        consolidateCurrentKeyword
+        nextToken
+        if (← cur) == some (.rOp .oLParen) then parseParens fuel
+        if (← curKw) == some .kFor then nextToken
+        parseExpression fuel
+      else if (← cur) == some (.rOp .oLParen) then
+        parseParens fuel
+      let c ← cur
+      if isKeyword c [.kOf] then
+        -- class of ... (`break`)
+        nextToken
+        return
+      else if isOp c [.oSemicolon] then
+        return
+      finishLogicalLine
+      pushCtx (mkCtx .typeDeclaration (.opaque .kwEnd) (.level 0))
+      pushCtx (mkCtx .visibilityBlock (.opaque .visibilityBlockEnding) (.level 1))
+      if isOp (← cur) [.oLBrack] && isTextLiteral (← nextTT) then
+        nextToken
+        takeUntil (fun p => isOp p.getCurrentTokenType [.oRBrack]) fuel
+        nextToken
+        setLogicalLineType .lGuid
+        finishLogicalLine
+      parseStructures fuel
+      popCtx
+      parseStructures fuel
+      popCtx
+      finishLogicalLine
+      nextToken
+      opUntil afterSemicolon (.keywordConsolidator true) fuel
+      takeUntil noMoreSeparators fuel
+      finishLogicalLine
+      return
+    else if isKeyword t [.kOf] then
+      if lastCtx == some .blockClause then
+        popCtx
+        return
+      else
+        nextToken
+        if isConstKeyword (← cur) then
+          setCurrentTokenType (.rKeyword (.kConst .dkOther))
+          nextToken
+    else if isVarKeyword t then
+      if isKeyword (s.getTokenType (-1)) [.kFor] then setCurrentDeclKind .dkInline
+      nextToken
+    else if isOp t [.oLParen] then
+      if isOp (s.getTokenType (-1)) [.oColon] && lastCtx == some (.statement .sVariantRecord) then
+        parseVariantRecordFields fuel
+      else parseParens fuel
+    else if isOp t [.oSemicolon] then
+      takeUntil noMoreSeparators fuel
+      finishLogicalLine
+      return
+    else if isLessThanOp t && lastCtx == some .typeBlock then
+      skipPair fuel
+    else if isOp t [.oColon] then
+      let parent ← getLineParentOfCurrentToken
+      nextToken
+      if (← curLine).ltype == .lCaseArm then
+        finishLogicalLine
+        parseCaseArm fuel parent
+      else if (match ← lastCtxType with
+          | some .visibilityBlock | some .declarationBlock | some .typeDeclaration => true
+          | _ => false) then
+        let c ← cur
+        if isKeyword c [.kClass] then nextToken
+        else if isKeyword c [.kFunction, .kProcedure] then
+          parseRoutineHeader fuel
+          finishLogicalLine
+          return
+      consolidateCurrentCaretToType
+    else if isEqualOp t then
+      if (match lastCtx with
+          | some .declarationBlock | some .typeBlock | some (.statement _) => true
+          | _ => false) then
+        if !(← curLineTokenTypes).any (fun tt => tt == .rOp (.oEqual .eDecl) || tt == .rOp .oAssign) then
+          setCurrentTokenType (.rOp (.oEqual .eDecl))
+      nextToken
+      if (← lastCtxType) == some .typeBlock then
+        let c ← cur
+        if isKeyword c [.kType] then
+          nextToken
+          if isKeyword (← cur) [.kOf] then nextToken
+        else if isCaretOp c then
+          consolidateCurrentCaretToType
+          nextToken
+        else if isKeyword c [.kFunction, .kProcedure] then
+          parseRoutineHeader fuel
+          finishLogicalLine
+          return
+        else if isOp c [.oLParen] then
+          let parenLevel := (← get).parenLevel
+          nextToken
+          opUntil (outsideParens parenLevel) .enumDefinition fuel
+    else if isIdentOrKeyword t [.kReference] then
+      if isKeyword (s.getTokenType 1) [.kTo] then consolidateCurrentKeyword
+      nextToken
+    else if tokenType == .rKeyword (.kIn .iOp) then
+      if ← andM ((← curLine).ltype == .lForLoop)
+          (do pure (!(← curLineTokenTypes).any (fun tt => tt == .rKeyword (.kIn .iForLoop)))) then
+        setCurrentTokenType (.rKeyword (.kIn .iForLoop))
+      nextToken
+    else if isKeyword t [.kTo] then
+      nextToken
+      if isKeyword (← cur) [.kFunction, .kProcedure] then
+        parseRoutineHeader fuel
+        finishLogicalLine
+        return
+    else if isIdentOrKeyword t [.kAbsolute]
+        && (s.getTokenType (-1) == some .rIdentifier || isAnyIdentOrKeyword (s.getTokenType (-1))) then
+      consolidateCurrentKeyword
+      nextToken
+    else if isOp t [.oAssign] then
+      nextToken
+      if (← curLine).ltype == .lUnknown then setLogicalLineType .lAssignment
+    else if isKeyword t [.kFunction, .kProcedure] then
+      parseAnonymousRoutine fuel
+    else if isKeyword t [.kBegin] then
+      nextToken
+      parseStatementListBlock fuel (mkCtx (.statementBlock .bBegin) (.opaque .kwEnd) (.level 1))
+      nextToken
+      takeUntil noMoreSeparators fuel
+      finishLogicalLine
+    else if ← andM (tokenType == .rIdentifier || isNumberLiteral t || isAnyIdentOrKeyword t)
+        (do
+          if ← isAtStartOfLine then
+            pure (s.getTokenType 1 == some (.rOp .oColon)
+              && !(match lastCtx with
+                | some .declarationBlock | some .visibilityBlock | some (.statement .sCase)
+                | some (.statement .sVariantRecord) | some .variantDeclarationBlock | some .typeDeclaration => true
+                | _ => false))
+          else pure false) then
+      -- Labels
+      nextToken
+      nextToken
+      finishLogicalLine
+      return
+    else
+      nextToken
+    parseStatement fuel
+
+/-- `parse_line_section` -/
+def parseLineSection : Nat → ParserContext → PM Unit
+  | 0, _ => panic_
+  | fuel + 1, context => do
+    pushCtx context
+    parseStatement fuel
+    popCtx
+
+/-- `parse_statement_list_block` -/
+def parseStatementListBlock : Nat → ParserContext → PM Unit
+  | 0, _ => panic_
+  | fuel + 1, context => parseStatementBlockWithKind fuel context .sNormal
+
+/-- `parse_statement_block_with_kind` -/
+def parseStatementBlockWithKind : Nat → ParserContext → StatementKind → PM Unit
+  | 0, _, _ => panic_
+  | fuel + 1, context, statementKind =>
+    doWithContext fuel context (.parseStatementListWithType (.statement statementKind))
+
+/-- `parse_statement_list_with_type` -/
+def parseStatementListWithType : Nat → ContextType → PM Unit
+  | 0, _ => panic_
+  | fuel + 1, contextType =>
+    parseStatementListWithTypeAndPredicate fuel contextType (.transparent .semicolon)
+
+/-- `parse_statement_list_with_type_and_predicate` (one iteration of its `loop` per call) -/
+def parseStatementListWithTypeAndPredicate : Nat → ContextType → ContextEndingPredicate → PM Unit
+  | 0, _, _ => panic_
+  | fuel + 1, contextType, contextEndingPredicate => do
+    let level := ParserContextLevel.level 0
+    doWithContext fuel (mkCtx contextType contextEndingPredicate level) .parseStructures
+    finishLogicalLine
+    takeSeparatorsOnLastLine fuel level
+    if (← endingIdx).isSome || (← cur).isNone then return
+    parseStatementListWithTypeAndPredicate fuel contextType contextEndingPredicate
+
+/-- `parse_block` -/
+def parseBlock : Nat → ParserContext → PM Unit
+  | 0, _ => panic_
+  | fuel + 1, context => doWithContext fuel context .parseStructuresFinish
+
+/-- the `action(self)` call of `do_with_context` -/
+def runAction : Nat → Action → PM Unit
+  | 0, _ => panic_
+  | fuel + 1, action =>
+    match action with
+    | .parseStatementListWithType ct => parseStatementListWithType fuel ct
+    | .parseStructures => parseStructures fuel
+    | .parseStructuresFinish => do
+      parseStructures fuel
+      finishLogicalLine
+    | .nextToken => nextToken
+    | .parseRoutine => parseRoutine fuel
+    | .parseAsmInstructions => parseAsmInstructions fuel
+
+/-- `do_with_context` -/
+def doWithContext : Nat → ParserContext → Action → PM Unit
+  | 0, _, _ => panic_
+  | fuel + 1, context, action => do
+    let contextParent := context.level.parent?
+    match contextParent with
+    | some p => prim (.pushLine p)
+    | none => finishLogicalLine
+    pushCtx context
+    runAction fuel action
+    popCtx
+    if contextParent.isSome then prim .popLine
+
+/-- `parse_parens` (one iteration of its `loop` per call of `parseParensGo`) -/
+def parseParens : Nat → PM Unit
+  | 0 => panic_
+  | fuel + 1 => do
+    nextToken
+    parseParensGo fuel
+
+def parseParensGo : Nat → PM Unit
+  | 0 => panic_
+  | fuel + 1 => do
+    let t ← cur
+    if t.isNone then return
+    if isOp t [.oLParen] then parseParens fuel
+    else if isOp t [.oRParen] then
+      nextToken
+      return
+    else if isKeyword t [.kFunction, .kProcedure] then parseAnonymousRoutine fuel
+    else nextToken
+    parseParensGo fuel
+
+/-- `parse_variant_record_fields` -/
+def parseVariantRecordFields : Nat → PM Unit
+  | 0 => panic_
+  | fuel + 1 => do
+    let parent ← getLineParentOfCurrentToken
+    nextToken
+    parseBlock fuel (mkCtx .declarationBlock (.opaque .rparen) (.parent parent 1))
+    if isOp (← cur) [.oRParen] then nextToken
+
+/-- `parse_anonymous_routine` -/
+def parseAnonymousRoutine : Nat → PM Unit
+  | 0 => panic_
+  | fuel + 1 => do
+    let routineKeywordParent ← getLineParentOfCurrentToken
+    nextToken
+    parseAnonymousRoutineGo fuel routineKeywordParent
+
+/-- the `loop` of `parse_anonymous_routine` -/
+def parseAnonymousRoutineGo : Nat → LineParent → PM Unit
+  | 0, _ => panic_
+  | fuel + 1, routineKeywordParent => do
+    let some tokenType ← cur | return
+    let t := some tokenType
+    if isOp t [.oLParen] then
+      parseParameterList fuel
+    else if (match tokenType with | .rKeyword k => k.isDeclSection | _ => false) then
+      let contextType : ContextType :=
+        if tokenType == .rKeyword .kType then .typeBlock
+        else if tokenType == .rKeyword .kLabel then .labelBlock
+        else .declarationBlock
+      setCurrentDeclKind .dkAnonSection
+      doWithContext fuel (mkCtx contextType (.opaque .neverEnding) (.parent routineKeywordParent 0)) .nextToken
+      parseBlock fuel (mkCtx contextType (.opaque .localDeclarationSection) (.parent routineKeywordParent 1))
+    else if isKeyword t [.kBegin] then
+      let parent ← getLineParentOfCurrentToken
+      parseBeginEnd fuel (.parent parent 1)
+      return
+    else if isOp t [.oSemicolon, .oRParen, .oRBrack] then
+      return
+    else if isKeyword t [.kProcedure, .kFunction] then
+      doWithContext fuel (mkCtx .subRoutine (.opaque .neverEnding) (.parent routineKeywordParent 1)) .parseRoutine
+    else nextToken
+    parseAnonymousRoutineGo fuel routineKeywordParent
+
+/-- `parse_routine` -/
+def parseRoutine : Nat → PM Unit
+  | 0 => panic_
+  | fuel + 1 => do
+    setLogicalLineType .lRoutineHeader
+    parseRoutineHeader fuel
+    let isForwardDeclaration :=
+      (← curLineTokenTypes).any (fun tt => tt == .rKeyword .kForward || tt == .rKeyword .kExternal)
+        || (← get).anyContextType [.interface, .typeDeclaration]
+    finishLogicalLine
+    if !isForwardDeclaration then
+      parseBlock fuel (mkCtx .subRoutine (.opaque .beginAsm) (.level 1))
+      let c ← cur
+      if isKeyword c [.kAsm] then parseAsmBlock fuel
+      else if isKeyword c [.kBegin] then
+        parseBeginEnd fuel (.level 1)
+        takeUntil noMoreSeparators fuel
+        finishLogicalLine
+
+/-- `parse_asm_block` -/
+def parseAsmBlock : Nat → PM Unit
+  | 0 => panic_
+  | fuel + 1 => do
+    nextToken
+    finishLogicalLine
+    doWithContext fuel (mkCtx (.statementBlock .bAsm) (.opaque .neverEnding) (.level 1)) .parseAsmInstructions
+    nextToken
+    takeUntil noMoreSeparators fuel
+    finishLogicalLine
+
+/-- `parse_begin_end` -/
+def parseBeginEnd : Nat → ParserContextLevel → PM Unit
+  | 0, _ => panic_
+  | fuel + 1, contextLevel => do
+    nextToken
+    parseStatementListBlock fuel (mkCtx (.statementBlock .bBegin) (.opaque .kwEnd) contextLevel)
+    nextToken
+
+end
+
+/-- `InternalDelphiLogicalLineParser::parse` -/
+def parse (fuel : Nat) : PM Unit := do
+  parseStatementListWithTypeAndPredicate fuel .topLevelStatement (.opaque .topLevelSemicolon)
+  finishLogicalLine
+  nextToken
+  setLogicalLineType .lEof
+  finishLogicalLine
+
+/-- `InternalDelphiLogicalLineParser::new` -/
+def PS.new (kinds0 : List RawKind) (kinds : Array RawKind) (nl : Array Bool) (pass : List Nat) : PS :=
+  { kinds0 := kinds0, pass := pass, passArr := pass.toArray, nl := nl, kinds := kinds, mt := Traced.init kinds0 pass,
+    contexts := [], parenLevel := 0, brackLevel := 0, genericLevel := 0 }
+
+/-- the loop after each pass of `parse_file`: what is still `IdentifierOrKeyword` becomes `Identifier` -/
+def cementPass (kinds : Array RawKind) : List Nat → Option (Array RawKind)
+  | [] => some kinds
+  | passToken :: rest =>
+    match kinds[passToken]? with
+    | none => none
+    | some (.rIdentifierOrKeyword _) => cementPass (kinds.setIfInBounds passToken .rIdentifier) rest
+    | some _ => cementPass kinds rest
+
+/-- the passes of `parse_file`: final kinds, the lines of every pass, the traces -/
+def runPasses (kinds0 : List RawKind) (nl : Array Bool) (fuel : Nat) :
+    List (List Nat) → Array RawKind → List (List PLine) → List (List Nat × List POp) →
+    Option (Array RawKind × List (List PLine) × List (List Nat × List POp))
+  | [], kinds, ls, trs => some (kinds, ls.reverse, trs.reverse)
+  | pass :: rest, kinds, ls, trs =>
+    match (parse fuel).run (PS.new kinds0 kinds nl pass) with
+    | none => none
+    | some ((), s) =>
+      -- `kinds0` and `pass` index the traced machine state and are never written; the guard makes that a fact the
+      -- theorems can use (it cannot fail: the correspondence would show `model-none`)
+      if s.kinds0 = kinds0 ∧ s.pass = pass then
+        match cementPass s.kinds pass with
+        | none => none
+        | some kinds' => runPasses kinds0 nl fuel rest kinds' (s.m.lines :: ls) ((pass, s.trace.reverse) :: trs)
+      else none
+
+end PFull
+
+/-- `consolidate_pass_lines` for every pass in turn -/
+def consolidateAll : List PLine → List (List PLine) → Option (List PLine)
+  | acc, [] => some acc
+  | acc, ls :: rest =>
+    match consolidatePass acc ls with
+    | none => none
+    | some acc' => consolidateAll acc' rest
+
+open PFull in
 /-- `parse_file`: `toks[i] = (kind of token i, does its leading whitespace contain CR or LF)`.
     `none` = the real code would panic, or the model's fuel ran out. -/
-def parseFileFull (toks : List (RawKind × Bool)) : Option ParseFullOut := none
+def parseFileFull (toks : List (RawKind × Bool)) : Option ParseFullOut :=
+  let kinds0 := toks.map (·.1)
+  let nl := (toks.map (·.2)).toArray
+  let fuel := 200 * (toks.length + 10)
+  match runPasses kinds0 nl fuel (passes kinds0) kinds0.toArray [] [] with
+  | none => none
+  | some (kinds, passLines, traces) =>
+    match consolidateAll [] passLines with
+    | none => none
+    | some acc =>
+      let finalKinds := kinds.toList
+      let attributed := attributedOf finalKinds passLines
+      let dl := directiveLinesGo attributed 0 finalKinds.zipIdx
+      match consolidatePass acc dl with
+      | none => none
+      | some lines => some { kinds := finalKinds, lines := lines, traces := traces, passLines := passLines }
 
 end Pasfmt
